@@ -105,7 +105,10 @@ def run_comp_job(job, seed):
     except HarnessError:
         raise
     except Exception as e:
-        clause, detail = runner.classify_exception(e)
+        if isinstance(e, Violation):
+            clause, detail = e.clause, e.detail
+        else:
+            clause, detail = runner.classify_exception(e)
         return {'result': {'scenario': name, 'states': 1, 'transitions': 0, 'facts': {},
                            'branching_states': 0, 'max_tie_group': 0, 'distinct_final_states': 0,
                            'capped': None, 'violations': 1},
@@ -161,8 +164,11 @@ def comp_job(world_name, name, params, e2=20, **caps):
 
 def split_first(world_name, name, params, e2=20, **caps):
     '''One job per root-menu entry.'''
-    with _Quiet():
-        n = len(WORLDS[world_name](params).menu())
+    try:
+        with _Quiet():
+            n = len(WORLDS[world_name](params).menu())
+    except Violation:
+        return [comp_job(world_name, name, params, e2=e2, **caps)]     # the job itself reports the violation
     out = []
     for i in range(n):
         p = dict(params)
